@@ -121,6 +121,7 @@ structure Handle where
   nstr : Nat := 0
   mode : Mode := .r
   cont : Cont := .other
+  isFloat : Bool := false
   haveWritten : Bool := false
   strStart : Bool := false
   strEnd : Bool := false
@@ -273,7 +274,7 @@ def runSteps (c : OpenCfg) (sts : List Step) (s : S) : S := sts.foldl (fun s st 
 
 /-- psf_allocate + psf_init_files + the route's descriptor (sndfile.c:348-509) -/
 def allocate (c : OpenCfg) (a : Acct) : S :=
-  let s : S := ({ mode := c.mode, cont := c.cont }, a)
+  let s : S := ({ mode := c.mode, cont := c.cont, isFloat := c.isFloat }, a)
   let s := alloc (.owner .header) (alloc .psf s)
   match c.route with
   | .path true => alloc .fileFd s
@@ -364,7 +365,8 @@ def isWr (h : Handle) : Bool := h.mode = .w || h.mode = .rw
 def stepOpen (s : S) : Op → S × Int
   | .setString valid =>
       let h := s.1
-      if !valid then (s, 1)
+      if h.mode = .r then (s, 1)                       -- psf_set_string: SFE_STR_NOT_WRITE
+      else if !valid then (s, 1)
       else if isWr h && (!h.strStart || (h.haveWritten && !h.strEnd)) then (s, 1)
       else if (h.mode = .rw || h.haveWritten) && !h.strEnd then (s, 1)
       else if h.nstr ≥ maxStrings then (s, 1)
@@ -404,7 +406,7 @@ def stepOpen (s : S) : Op → S × Int
       if found then (allocIfNull (.owner .iterator) s, 1) else (s, 0)
   | .setPeak on =>
       let h := s.1
-      if !isWr h || h.haveWritten then (s, -2)
+      if !(h.cont.rich && h.isFloat) || !isWr h || h.haveWritten then (s, -2)     -- only WAV/WAVEX/AIFF/CAF/RF64 with float or double data
       else if !on && h.cell (.owner .peakInfo) != .null then (freeNull (.owner .peakInfo) s, -2)
       else (allocIfNull (.owner .peakInfo) s, -2)
   | .setDither isWrite ty valid =>
